@@ -511,6 +511,16 @@ class Interp:
             return list(v)
         raise PyRaise("TypeError", f"cannot unpack {type(v).__name__} into {n} names", node)
 
+    def st_With(self, st, env):
+        # only context managers that do not change the semantics modelled here (np.errstate, warnings.catch_warnings)
+        for item in st.items:
+            cm = self.eval(item.context_expr, env)
+            if not getattr(cm, "pyvc_null_context", False):
+                raise OutOfSubset(f"with-statement over {type(cm).__name__} (line {st.lineno})")
+            if item.optional_vars is not None:
+                self.assign(item.optional_vars, None, env) if hasattr(self, "assign") else None
+        self.exec_block(st.body, env)
+
     def st_If(self, st, env):
         if self.truth(self.eval(st.test, env)):
             self.exec_block(st.body, env)
